@@ -723,6 +723,47 @@ def observe_any(code):
     return ('ok', out)
 
 
+
+# Deterministic twin pairs (always run, independent of the PRNG): one instance of every shape a seeded change was caught by.
+SHAPES = [
+    ('comb GET/UNPAIR n/PACK through :type-annotated inner pairs (C17-1)',
+     'PUSH (pair (int %a) (pair :t (int %c) (pair :u %d (int %e) (int %f)))) (Pair 1 2 3 4) ; DUP ; GET 5 ; SWAP ; DUP ; UNPAIR 3 ; DROP 3 ; DUP ; PUSH int 9 ; UPDATE 6 ; PACK ; SWAP ; PACK',
+     'PUSH (pair int (pair int (pair int int))) (Pair 1 2 3 4) ; DUP ; GET 5 ; SWAP ; DUP ; UNPAIR 3 ; DROP 3 ; DUP ; PUSH int 9 ; UPDATE 6 ; PACK ; SWAP ; PACK'),
+    ('MAP over a map projecting an annotated component (C17-2)',
+     'PUSH (map string (pair (int %a) (nat %b))) { Elt "a" (Pair 1 2) ; Elt "b" (Pair 3 4) } ; MAP { CDR ; CAR } ; PUSH string "a" ; GET',
+     'PUSH (map string (pair int nat)) { Elt "a" (Pair 1 2) ; Elt "b" (Pair 3 4) } ; MAP { CDR ; CAR } ; PUSH string "a" ; GET'),
+    ('MAP over a map keeping the annotated value, then PACK (C17-2)',
+     'PUSH (map nat (pair (int %x) (pair %y (nat %z) (string :s %w)))) { Elt 7 (Pair 1 2 "q") } ; MAP { CDR ; CDR } ; PACK',
+     'PUSH (map nat (pair int (pair nat string))) { Elt 7 (Pair 1 2 "q") } ; MAP { CDR ; CDR } ; PACK'),
+    ('assert_type_equal with different :type names (C17-3)',
+     'PUSH (pair :p1 (int :i1 %a) (nat :n1)) (Pair 1 2) ; PUSH (pair :p2 (int :i2) (nat :n2 %b)) (Pair 1 3) ; COMPARE ; NIL (pair :q (int :x) nat) ; PUSH (pair :r int (nat :y)) (Pair 0 0) ; CONS ; PACK',
+     'PUSH (pair int nat) (Pair 1 2) ; PUSH (pair int nat) (Pair 1 3) ; COMPARE ; NIL (pair int nat) ; PUSH (pair int nat) (Pair 0 0) ; CONS ; PACK'),
+    ('CAR / CDR carrying %field instruction annotations that differ from the component names (C17-4)',
+     'PUSH (pair (int %a) (pair %b (nat %c) (string %d))) (Pair 1 2 "s") ; DUP ; CAR %x ; SWAP ; DUP ; CDR %a ; CAR %d ; SWAP ; CDR %c ; CDR %b',
+     'PUSH (pair int (pair nat string)) (Pair 1 2 "s") ; DUP ; CAR ; SWAP ; DUP ; CDR ; CAR ; SWAP ; CDR ; CDR'),
+    ('or types whose variants share field names (C17-5)',
+     'PUSH (or (int %a) (or %a (nat %a) (string %b))) (Right (Right "x")) ; IF_LEFT { DROP ; PUSH nat 0 } { IF_LEFT { DROP ; PUSH nat 1 } { DROP ; PUSH nat 2 } } ; PUSH (or (int %b) (nat %b)) (Left 1) ; PACK ; PUSH int 3 ; LEFT (or %a (nat %a) (int %a))',
+     'PUSH (or int (or nat string)) (Right (Right "x")) ; IF_LEFT { DROP ; PUSH nat 0 } { IF_LEFT { DROP ; PUSH nat 1 } { DROP ; PUSH nat 2 } } ; PUSH (or int nat) (Left 1) ; PACK ; PUSH int 3 ; LEFT (or nat int)'),
+    ('from_items over a list whose results carry different nested annotations (C17-6)',
+     'PUSH (list (pair (pair (int %a) (nat %b)) (string %c))) { Pair (Pair 1 1) "x" ; Pair (Pair -1 2) "y" } ; MAP { DUP ; CAR ; CAR ; GT ; IF { } { DROP ; PUSH (pair (pair int nat) string) (Pair (Pair 0 0) "") } } ; PACK',
+     'PUSH (list (pair (pair int nat) string)) { Pair (Pair 1 1) "x" ; Pair (Pair -1 2) "y" } ; MAP { DUP ; CAR ; CAR ; GT ; IF { } { DROP ; PUSH (pair (pair int nat) string) (Pair (Pair 0 0) "") } } ; PACK'),
+    ('MAP over a list projecting an annotated component (#49)',
+     'PUSH (list (pair (int %a) (pair %b nat (string %c)))) { Pair 1 2 "x" ; Pair 3 4 "y" } ; DUP ; MAP { CAR } ; SWAP ; MAP { GET 4 }',
+     'PUSH (list (pair int (pair nat string))) { Pair 1 2 "x" ; Pair 3 4 "y" } ; DUP ; MAP { CAR } ; SWAP ; MAP { GET 4 }'),
+    ('COMPARE of pairs with a one-sided annotated inner pair (C17-7)',
+     'PUSH (pair (pair int int) nat) (Pair (Pair 1 2) 4) ; PUSH (pair (pair :in %p (int %x) (int %y)) (nat %n)) (Pair (Pair 1 2) 3) ; COMPARE ; PUSH (pair (pair %q int int) nat) (Pair (Pair 1 2) 4) ; PUSH (pair (pair int int) nat) (Pair (Pair 1 5) 3) ; COMPARE ; PUSH (pair (pair :t int int) nat) (Pair (Pair 1 2) 3) ; DUP ; UNPAIR ; UNPAIR ; PAIR ; PAIR ; COMPARE',
+     'PUSH (pair (pair int int) nat) (Pair (Pair 1 2) 4) ; PUSH (pair (pair int int) nat) (Pair (Pair 1 2) 3) ; COMPARE ; PUSH (pair (pair int int) nat) (Pair (Pair 1 2) 4) ; PUSH (pair (pair int int) nat) (Pair (Pair 1 5) 3) ; COMPARE ; PUSH (pair (pair int int) nat) (Pair (Pair 1 2) 3) ; DUP ; UNPAIR ; UNPAIR ; PAIR ; PAIR ; COMPARE'),
+    ('APPLY with a nested-annotated captured type, then PACK / EXEC (C17-8, #51, #52)',
+     'PUSH (pair (int %a) (pair %b (nat %c) (list :l (pair (string %s) (bool %t))))) (Pair 1 2 { Pair "x" True }) ; LAMBDA (pair (pair (int %a) (pair %b (nat %c) (list :l (pair (string %s) (bool %t))))) (unit %u)) int { CAR ; CAR } ; SWAP ; APPLY ; DUP ; PACK ; SWAP ; UNIT ; EXEC',
+     'PUSH (pair int (pair nat (list (pair string bool)))) (Pair 1 2 { Pair "x" True }) ; LAMBDA (pair (pair int (pair nat (list (pair string bool)))) unit) int { CAR ; CAR } ; SWAP ; APPLY ; DUP ; PACK ; SWAP ; UNIT ; EXEC'),
+    ('CAST to a type with permuted / renamed / dropped field names (C17-9)',
+     'PUSH (pair (int %a) (int %b)) (Pair 1 2) ; CAST (pair (int %b) (int %a)) ; PUSH (pair (nat %x) (pair %y (nat %z) (nat %w))) (Pair 1 2 3) ; CAST (pair (nat %w) (pair %x (nat %y) (nat %z))) ; RENAME @v ; PACK ; PUSH (pair (string %s) (string %t)) (Pair "p" "q") ; CAST (pair (string %t) string)',
+     'PUSH (pair int int) (Pair 1 2) ; CAST (pair int int) ; PUSH (pair nat (pair nat nat)) (Pair 1 2 3) ; CAST (pair nat (pair nat nat)) ; RENAME ; PACK ; PUSH (pair string string) (Pair "p" "q") ; CAST (pair string string)'),
+    ('SLICE / NONE / UNPACK failure on annotated item types (#53)',
+     'PUSH (pair (string %s) (bytes %b)) (Pair "abc" 0x0102) ; UNPAIR ; PUSH nat 5 ; PUSH nat 0 ; SLICE ; SWAP ; PUSH nat 9 ; PUSH nat 1 ; SLICE ; PUSH bytes 0x00 ; UNPACK (pair :p (int %a) (nat %b))',
+     'PUSH (pair string bytes) (Pair "abc" 0x0102) ; UNPAIR ; PUSH nat 5 ; PUSH nat 0 ; SLICE ; SWAP ; PUSH nat 9 ; PUSH nat 1 ; SLICE ; PUSH bytes 0x00 ; UNPACK (pair int nat)'),
+]
+
 FIXED = [  # witnesses of defects #10 and #34 (fixed in /repo): replayed on every run
     ('GET 3 on an annotated right comb (defect #10)',
      'PUSH (pair (int %a) (pair %b (int %c) (pair %d (int %e) (int %f)))) (Pair 1 2 3 4) ; GET 3',
@@ -787,8 +828,9 @@ def run(ctx: lib.Ctx) -> None:
     for kf in ctx.known.get('findings', []):      # still known findings: note whether their witnesses still reproduce
         w = kf['witness']
         ctx.extra.setdefault('known_finding_witness_still_fails', {})[kf['id']] = observe_any(w['annotated']) != observe_any(w['stripped'])
+    fixed += [(f'deterministic shape — {w}', a_, p_) for w, a_, p_ in SHAPES]
     for what, annotated, plain in fixed:
-        a, b = observe_text(annotated), observe_text(plain)
+        a, b = observe_any(annotated), observe_any(plain)
         ctx.case(('fixed', annotated), kind='fixed-witness', sample={'code': annotated, 'result': repr(a)[:200]})
         if (a != b or a[0] != 'ok') and violations < 3:
             ctx.violation(f'annotated and stripped twin differ — {what}', {'annotated': annotated, 'stripped': plain, 'annotated_result': a, 'stripped_result': b,
